@@ -1,6 +1,7 @@
 """C11 — DSL evaluation runs in global phases and dependency order (engine Eval)."""
 import json
 import os
+import shutil
 
 import vcheck
 from vcheck import Check, sh, VERIF
@@ -12,10 +13,14 @@ def run(tier, replay=None):
     if ck.coq_ok:
         ck.coq_assumptions()
     binp = ck.go_build("c11")
-    cmd = [binp, "-seed", str(ck.seed), "-tier", tier, "-out", ck.work]
+    # generator.Generate asks the go tool for the import path of <dir>/gen: the directory has
+    # to live inside a Go module; it is created and removed by the harness
+    gendir = os.path.join(VERIF, "harness", "cmd", "c11", ".gen-%d" % os.getpid())
+    cmd = [binp, "-seed", str(ck.seed), "-tier", tier, "-out", ck.work, "-gendir", gendir]
     if replay:
         cmd += ["-replay", replay]
-    rc, out = sh(cmd, timeout=1800)
+    rc, out = sh(cmd, timeout=1800, env=vcheck.goenv())
+    shutil.rmtree(gendir, ignore_errors=True)
     if rc != 0:
         raise RuntimeError("harness c11 failed: " + out[-2000:])
     res = json.load(open(os.path.join(ck.work, "result.json")))
@@ -31,7 +36,7 @@ def run(tier, replay=None):
         p = os.path.join(ck.work, name)
         return open(p).read().splitlines() if os.path.exists(p) else []
 
-    rm = gm = pm = None
+    rm = gm = pm = hm = None
     if ck.coq_ok:
         hdr = "From Eval Require Import Model Run.\nFrom Coq Require Import NArith."
         rm = ck.coq_eval_cases(lines("cases_roots.txt"), hdr, "roots_case", "roots_mismatches", tag="roots")
@@ -41,32 +46,37 @@ def run(tier, replay=None):
         rl = lines("cases_run.txt")
         pm = ck.coq_eval_cases(rl, hdr, "run_case", "run_mismatches", tag="run",
                                shards=(16 if len(rl) < 5000 else 96))
+    if ck.coq_ok:
+        hm = ck.coq_eval_cases(lines("cases_generate.txt"), hdr, "gen_case", "gen_mismatches", tag="gen")
     if not ck.coq_ok:
         if not ck.violations:
             ck.unproved("the Eval development no longer checks: " + ck.coq_error,
                         {"broken": "coq/Eval build or case evaluation", "detail": ck.coq_error})
-    elif (rm or gm or pm) and not ck.violations:
+    elif (rm or gm or pm or hm) and not ck.violations:
         first = None
-        if pm and res.get("cases"):
-            first = res["cases"][pm[0]] if pm[0] < len(res["cases"]) else {"program_case_index": pm[0]}
+        if (pm or hm) and res.get("cases"):
+            k = (pm or hm)[0]
+            first = res["cases"][k] if k < len(res["cases"]) else {"program_case_index": k}
         elif rm:
             gs = res.get("extra", {}).get("graphs") or []
             first = gs[rm[0]] if rm[0] < len(gs) else {"roots_case_index": rm[0]}
         elif gm:
             first = {"n": 4, "graph_code_bit_(i*4+j)_means_i_depends_on_j": gm[0]}
-        ck.unproved("correspondence Eval.roots / Eval.run_dsl vs eval/context.go, eval/eval.go broke on %d Roots() case(s), %d 4-root graph(s) and %d program(s); the property's own laws held on every case explored"
-                    % (len(rm or []), len(gm or []), len(pm or [])),
-                    {"broken": "roots n deps regs = observed Roots(); run_dsl p = (observed callback trace, error class)",
+        ck.unproved("correspondence Eval.roots / Eval.run_dsl vs eval/context.go, eval/eval.go broke on %d Roots() case(s), %d 4-root graph(s), %d program(s) and %d generator.Generate hand-over(s); the property's own laws held on every case explored"
+                    % (len(rm or []), len(gm or []), len(pm or []), len(hm or [])),
+                    {"broken": "roots n deps regs = observed Roots(); run_dsl p = (observed callback trace, error class); generate_roots p = Roots() after the run; handover p = roots given to the consumers of generator.Generate",
                      "input": first, "mismatching_roots_cases": (rm or [])[:50],
-                     "mismatching_graph4_codes": (gm or [])[:50], "mismatching_program_cases": (pm or [])[:50]})
+                     "mismatching_graph4_codes": (gm or [])[:50], "mismatching_program_cases": (pm or [])[:50],
+                     "mismatching_generate_cases": (hm or [])[:50]})
     cov = {"evaluations": res["evaluations"], "distinct_nontrivial": res["distinct_nontrivial"], "rule": res["rule"],
            "samples": res["samples"], "distribution": res["distribution"],
-           "model_mismatches": (len(rm or []) + len(gm or []) + len(pm or [])) if ck.coq_ok else None,
+           "model_mismatches": (len(rm or []) + len(gm or []) + len(pm or []) + len(hm or [])) if ck.coq_ok else None,
            "exhaustive": False,
            "exhaustive_part": "Roots(): all digraphs on <=3 roots (quick) / <=4 roots (thorough) x all registration orders"}
     return ck.finish(cov, assumptions=[
         "model Eval/Model.v is hand-written from eval/context.go (Roots, sortDependencies, sortDependenciesR) and eval/eval.go (RunDSL, runSet, prepareSet, validateSet, finalizeSet); tied by evaluating roots / run_dsl inside Coq on every case the real code ran",
         "roots and expressions are the harness's instrumented doubles; WalkSets hands out each set when the walker reaches it (as expr.RootExpr.WalkSets does); only DSL functions act (append to a set of the own root, Register, ReportError); Prepare/Validate/Finalize only record the call",
+        "codegen/generator.Generate is run with an observer plugin and an observer generator registered for a command of their own; what they receive is compared with Eval.handover; the real generators are not run",
         "error locations and messages are projected away; a cycle error is compared as 'is a cycle error'",
         "envelope of the main stream: every dependency of a registered root is registered whenever Roots() runs; appends target sets the walker has not reached (the two recorded findings are re-demonstrated by the witness stream)"],
         trusted_base=["harness/cmd/c11 (program generation, instrumented roots/expressions, observation, Coq term printing, direct oracle)",
